@@ -16,8 +16,11 @@ RULE = ("lattice: TLC enumerates every pair (and every triple of a thinned latti
         "distinct = distinct hash of (space, case).")
 ASSUMPTIONS = ["compound weights strictly positive", "states in bounds", "extent clause only for bounded time",
                "symmetry / triangle only where hasSymmetricDistance() / isMetricSpace() claim them",
-               "float-precision sphere: tolerance float epsilon x extent, positivity not required below 1e-4 separation",
-               "recorded observations are rounded to micro-units (tolerance 2e-6)"]
+               "positivity only between states the space calls unequal and further apart than the space's own "
+               "resolution (logged per space: Dubins / Reeds-Shepp 2e-6, quaternion spaces 5e-5, float sphere 1e-4, else 0)",
+               "tolerance (logged per space): 2e-6 for the micro-unit rounding, + float epsilon x extent for the "
+               "float-precision sphere, + 4.5e-5 x weight for spaces containing SO(3) (its distance is 0 above "
+               "|<p,q>| > 1 - 1e-9)"]
 
 
 def run(tier):
